@@ -94,7 +94,6 @@ pub open spec fn same_but_verifiers(s0: State, s1: State) -> bool {
         r.is_err() ==> *final(self) == *old(self),
         !verifiers_of(*old(self)).dom().contains(*verifier) ==> r.is_err(),
         vx_store_ok() && verifiers_of(*old(self)).dom().contains(*verifier) ==> r.is_ok(),
-        vx_store_ok() && r.is_err() ==> r->Err_0.code == 16,
         same_but_verifiers(*old(self), *final(self)),
 //@ end
 //@ fn actors/verifreg/src/state.rs State::new
